@@ -353,6 +353,99 @@ def _check_invariant_helper(ctx, res: RuleResult):
 # --------------------------------------------------------------------------- R-ELEMTABLE
 
 
+_RESPELL = {"capitalize", "title", "upper", "lower", "casefold", "swapcase", "replace", "translate", "get", "join", "format"}
+_AS_WRITTEN = {"strip", "rstrip", "lstrip", "removeprefix", "removesuffix"}
+
+
+def _symbol_kept_as_written(ctx) -> list:
+    """for every place where a molfile reader stores an atom's element symbol: (function, origin tags, expression); tags:
+    'raw' text of the file (possibly stripped / sliced), 'const' a literal, 'respelled' result of a case-changing method or a
+    table look-up, 'unknown' anything else"""
+    from .readers import reader_entries
+    es = ctx.repo.const("tucan.graph_attributes", "ELEMENT_SYMBOL")
+    out = []
+
+    def tags_of(fi, e, depth, seen):
+        if depth > 6:
+            return {"unknown"}
+        if isinstance(e, ast.Constant):
+            return {"const"}
+        if isinstance(e, ast.NamedExpr):
+            return tags_of(fi, e.value, depth, seen)
+        if isinstance(e, ast.IfExp):
+            return tags_of(fi, e.body, depth, seen) | tags_of(fi, e.orelse, depth, seen)
+        if isinstance(e, ast.Subscript):
+            return {"raw"} if "respelled" not in (t := tags_of(fi, e.value, depth, seen)) and "unknown" not in t else t
+        if isinstance(e, ast.Name):
+            if (fi.fq, e.id) in seen:
+                return set()
+            seen = seen | {(fi.fq, e.id)}
+            t = set()
+            if e.id in params_of(fi.node):
+                t.add("raw")
+            for tgt in [n for n in own_walk(fi.node) if isinstance(n, (ast.Assign, ast.AnnAssign, ast.NamedExpr, ast.For, ast.AugAssign))]:
+                if isinstance(tgt, ast.NamedExpr):
+                    if isinstance(tgt.target, ast.Name) and tgt.target.id == e.id:
+                        t |= tags_of(fi, tgt.value, depth, seen)
+                    continue
+                if isinstance(tgt, ast.For):
+                    if e.id in names_in(tgt.target):
+                        t.add("raw")
+                    continue
+                targets = tgt.targets if isinstance(tgt, ast.Assign) else [tgt.target]
+                val = tgt.value
+                for tg in targets:
+                    if isinstance(tg, ast.Name) and tg.id == e.id and val is not None:
+                        t |= tags_of(fi, val, depth, seen) if not isinstance(tgt, ast.AugAssign) else {"unknown"}
+                    elif isinstance(tg, (ast.Tuple, ast.List)) and any(isinstance(x, ast.Name) and x.id == e.id for x in tg.elts):
+                        pos = [i for i, x in enumerate(tg.elts) if isinstance(x, ast.Name) and x.id == e.id][0]
+                        if isinstance(val, (ast.Tuple, ast.List)) and len(val.elts) == len(tg.elts):
+                            t |= tags_of(fi, val.elts[pos], depth, seen)
+                        elif isinstance(val, ast.Call):
+                            cs = ctx.cg.resolve_call(fi, val, ctx.cg.local_types(fi), set(params_of(fi.node)))
+                            if cs.kind == "tucan":
+                                for r in own_walk(cs.target.node):
+                                    if isinstance(r, ast.Return) and isinstance(r.value, ast.Tuple) and len(r.value.elts) == len(tg.elts):
+                                        t |= tags_of(cs.target, r.value.elts[pos], depth + 1, seen)
+                                    elif isinstance(r, ast.Return):
+                                        t.add("unknown")
+                            else:
+                                t.add("unknown")
+                        else:
+                            t.add("raw" if isinstance(val, (ast.Subscript, ast.Name)) else "unknown")
+            return t or {"unknown"}
+        if isinstance(e, ast.Call):
+            if isinstance(e.func, ast.Attribute) and e.func.attr in _AS_WRITTEN:
+                return tags_of(fi, e.func.value, depth, seen)
+            if isinstance(e.func, ast.Attribute) and e.func.attr in _RESPELL:
+                return {"respelled"}
+            cs = ctx.cg.resolve_call(fi, e, ctx.cg.local_types(fi), set(params_of(fi.node)))
+            if cs.kind == "tucan":
+                t = set()
+                for r in own_walk(cs.target.node):
+                    if isinstance(r, ast.Return) and r.value is not None:
+                        t |= tags_of(cs.target, r.value, depth + 1, seen)
+                return t or {"unknown"}
+            if isinstance(e.func, ast.Name) and e.func.id == "str" and e.args:
+                return tags_of(fi, e.args[0], depth, seen)
+            return {"unknown"}
+        return {"unknown"}
+
+    for ver, ent in reader_entries(ctx).items():
+        clo = [ent] + [ctx.cg.funcs[q] for q in ctx.cg.closure([ent.fq])]
+        for fi in clo:
+            for n in own_walk(fi.node):
+                if isinstance(n, ast.Dict):
+                    for k, v in zip(n.keys, n.values):
+                        if k is not None and try_const(ctx, fi, k) == es:
+                            out.append((fi, tags_of(fi, v, 0, frozenset()), v))
+                elif isinstance(n, ast.Assign) and len(n.targets) == 1 and isinstance(n.targets[0], ast.Subscript) and try_const(ctx, fi, n.targets[0].slice) == es:
+                    out.append((fi, tags_of(fi, n.value, 0, frozenset()), n.value))
+    if not out:
+        raise AnalysisError("R-ELEMTABLE: no reader stores an element symbol (anchor vanished)")
+    return out
+
+
 @rule("R-ELEMTABLE")
 def r_elemtable(ctx) -> RuleResult:
     res = RuleResult("R-ELEMTABLE", "element table = IUPAC H..Og with atomic number = position; grammar's formula language = Hill order over exactly these symbols")
@@ -376,6 +469,14 @@ def r_elemtable(ctx) -> RuleResult:
                                           and norm(r.value.func.value.func) == "super" and [norm(a) for a in r.value.args] == [p_ for p_ in params_of(mth.node)[1:]])]
                 if returns_value:
                     lenient.append((mth, returns_value[0]))
+            if lenient:
+                # a lenient table is harmless when the readers store the table's own spelling, not the file's
+                kept = _symbol_kept_as_written(ctx)
+                undecided = [k for k in kept if k[1] - {"raw", "const"}]
+                if undecided:
+                    fi_, tags_, node_ = undecided[0]
+                    raise AnalysisError(f"R-ELEMTABLE: the element table ({ci.name}.{lenient[0][0].name}) answers for spellings that are not among its keys, and "
+                                        f"{fi_.qualname} stores a symbol that is re-spelled on the way (`{short(node_, 50)}`): whether every stored symbol is the table's own spelling is not decided")
             res.inst(ci.fq, f"the element table is a {ci.name}: look-ups answer only for keys it holds", "fail" if lenient else "ok")
             if lenient:
                 mth, r0 = lenient[0]
@@ -671,8 +772,12 @@ def r_codec(ctx) -> RuleResult:
                         and isinstance(cs.node.func, ast.Name)]
         if not writer_calls:
             raise AnalysisError("R-CODEC: cannot see with which graph the serializer's writers are called")
+    from .common import only_for_empty_graph
     for cs in writer_calls:
         arg = cs.node.args[0] if cs.node.args else None
+        if isinstance(arg, ast.Name) and arg.id in params_of(cs.caller.node) and only_for_empty_graph(cs.caller.node, cs.node, [arg.id]) is not None:
+            res.inst(cs.caller.fq, short(cs.node), "ok", detail="only for the molecule without atoms: nothing to number")
+            continue
         src = single_def(ser.node, arg.id) if isinstance(arg, ast.Name) else arg
         good = False
         why = "graph passed to the writer is not the one numbered by atomic number"
